@@ -143,6 +143,20 @@ func runConc(c Case) concOut {
 	n := len(c.Progs)
 	recs := make([][]timedOp, n)
 	var ready, start int32
+	// per-step rendezvous (bounded spin): the i-th calls of all goroutines are issued together
+	maxLen := 0
+	for _, p := range c.Progs {
+		if len(p) > maxLen {
+			maxLen = len(p)
+		}
+	}
+	arrived := make([]int32, maxLen)
+	expect := make([]int32, maxLen)
+	for _, p := range c.Progs {
+		for i := range p {
+			expect[i]++
+		}
+	}
 	var wg sync.WaitGroup
 	base := time.Now()
 	for g := 0; g < n; g++ {
@@ -154,7 +168,10 @@ func runConc(c Case) concOut {
 			atomic.AddInt32(&ready, 1)
 			for atomic.LoadInt32(&start) == 0 {
 			}
-			for _, op := range prog {
+			for i, op := range prog {
+				atomic.AddInt32(&arrived[i], 1)
+				for spin := 0; spin < 4000 && atomic.LoadInt32(&arrived[i]) < expect[i]; spin++ {
+				}
 				call := int64(time.Since(base))
 				res := execOp(s, op, true)
 				ret := int64(time.Since(base))
@@ -314,7 +331,7 @@ func TestConcurrentLinearizable(t *testing.T) {
 	} else {
 		vkit.Case("conc:hash-readers-vs-writers-hammer", true, "hashprobe")
 	}
-	rounds := vkit.Pick(3, 3)
+	rounds := vkit.Pick(5, 5)
 	vkit.Check(t, 500, 20000, func(t *rapid.T) {
 		fam := rapid.SampledFrom(concFamilyNames).Draw(t, "family")
 		kinds := concFamilies[fam]
